@@ -79,6 +79,7 @@ PROPERTIES = {
             ('C11-R3', c11.rule_limit_handover, 'quick'),
             ('C11-R4', c11.rule_budget_clamp, 'quick'),
             ('C11-R5', c11.rule_budget_continuity, 'quick'),
+            ('C08-R4', clists.rule_translate_compile_siblings, 'quick'),  # budget arithmetic of translate and compile_pattern must agree
         ],
     },
     'C18': {
@@ -96,6 +97,8 @@ PROPERTIES = {
             ('C07-R2', clists.rule_is_negative_table, 'quick'),
             ('C10-R5', c10.rule_range_safety, 'quick'),
             ('C18-R7', cextra.rule_mypy_str_bytes, 'quick'),
+            ('C20-R1', c20.rule_decoder_roles, 'quick'),  # the bytes decoder indexes a regex with one group fewer
+            ('C14-R3', c14.rule_wcmatch_predicates, 'quick'),
         ],
     },
     'C19': {
@@ -123,6 +126,8 @@ PROPERTIES = {
             ('C20-R2', c20.rule_decode_only_raw, 'quick'),
             ('C20-R3', c20.rule_translation_table, 'quick'),
             ('C20-R4', c20.rule_normalise_before_expand, 'quick'),
+            ('C14-R1', c14.rule_wcmatch_flags, 'quick'),  # RAWCHARS must survive WcMatch's flag masking
+            ('C08-R4', clists.rule_translate_compile_siblings, 'quick'),
         ],
     },
     'C14': {
@@ -137,6 +142,8 @@ PROPERTIES = {
             ('C14-R4', c14.rule_pruning, 'quick'),
             ('C15-R3', c14.rule_run_prologue, 'quick'),
             ('C14-R5', cextra.rule_is_hidden, 'quick'),
+            ('C07-R3', clists.rule_negateall_default, 'quick'),  # WcMatch relies on the implicit `**` of negation-only patterns
+            ('C08-R4', clists.rule_translate_compile_siblings, 'quick'),
         ],
     },
     'C15': {
@@ -213,6 +220,9 @@ PROPERTIES = {
             ('C14-R1', c14.rule_wcmatch_flags, 'quick'),
             ('C04-R4', cglob.rule_negate_flags_normalised, 'quick'),
             ('C03-R4', c03.rule_exclusion_dotmatch, 'quick'),
+            ('C05-R5', cglob.rule_globstar_handover, 'quick'),  # the follow rule of `***` must not leak into a later `**`
+            ('C04-R9', cglob.rule_existence_gate, 'quick'),
+            ('C19-R1', c19.rule_no_module_state, 'quick'),  # a symlink cache shared between calls goes stale
         ],
     },
     'C12': {
@@ -332,6 +342,7 @@ PROPERTIES = {
             ('C02-R7', c02.rule_nodir, 'quick'),
             ('C01-R2', c01.rule_extglob_dispatch, 'quick'),
             ('C01-R6', cextra.rule_inverse_cleanup, 'quick'),
+            ('C01-R3ii', c01.rule_fullmatch_sites, 'quick'),  # translate output is anchored for fullmatch semantics
         ],
     },
     'C09': {
@@ -349,6 +360,7 @@ PROPERTIES = {
             ('C09-R4', cextra.rule_extend_guards, 'quick'),
             ('C09-R5', cextra.rule_is_magic_guard, 'quick'),
             ('C12-R6', cextra.rule_same_name_forwarding, 'quick'),
+            ('C20-R3', c20.rule_translation_table, 'quick'),
         ],
     },
     'C10': {
